@@ -491,15 +491,18 @@ def replay(path: str) -> int:
 
     data = json.loads(open(path).read())
     bad = 0
+    todo = []
     for v in data["violations"]:
         d = v["detail"]
         if "case" not in d:
             print(f"replay: design-layer violation {v['clause']} (re-run ./check C09)")
             bad += 1
             continue
-        c = {k: x for k, x in d["case"].items() if k != "fam"}
-        t = run_scan(c)
-        verdict = validate([t])[0][0]
+        todo.append({k: x for k, x in d["case"].items() if k != "fam"})
+    traces = [run_scan(c) for c in todo]
+    verdicts = validate(traces) if traces else {}
+    for i, t in enumerate(traces):
+        verdict = verdicts[i][0]
         print(f"replay sessions={t['sessions']} E={t['E']} depth={t['depth']} skip={t['skip']} "
               f"thorough={t['thorough']} result={t['result']} end={t['end']} verdict={verdict}")
         bad += verdict not in ("ok", "outside-assumption")
